@@ -836,7 +836,7 @@ func (rt *runtime) toValue(value interface{}) Value {
 					// is the last JavaScript argument, try treating the it as the
 					// actual set of variadic Go arguments. if that succeeds, break
 					// out of the loop.
-					if typ.IsVariadic() && len(c.ArgumentList) == nargs && i == nargs-1 {
+					if typ.IsVariadic() && len(c.ArgumentList) == nargs && i == nargs-1 && isListValue(a) {
 						if v, err := rt.convertCallParameter(a, typ.In(n)); err == nil {
 							in[i] = v
 							callSlice = true
@@ -966,4 +966,19 @@ func (rt *runtime) cmplParseOrThrow(src, sm interface{}) *nodeProgram {
 	program, err := rt.cmplParse("", src, sm)
 	rt.parseThrow(err) // Will panic/throw appropriately
 	return program
+}
+
+// isListValue reports whether a value may stand for the whole tail of a
+// variadic Go function: an Array or a bridged Go slice or array, not any
+// object that happens to have a length (a callback function, a String object).
+func isListValue(value Value) bool {
+	obj := value.object()
+	if obj == nil {
+		return false
+	}
+	switch obj.value.(type) {
+	case *goSliceObject, *goArrayObject:
+		return true
+	}
+	return obj.class == classArrayName
 }
